@@ -1081,4 +1081,86 @@ theorem loadSegmentsLoop_sim (c : Cls) (enc : Enc) (img : Bytes) (k : Nat) (kind
       obtain ⟨r1, r2, -⟩ := ih (i + 1) _ _ _ _ f5 (fun _ => hrel) hacc' hok
       exact ⟨r1, r2, fun _ => hnf0⟩
 
+/-! ### the phases of `load` in both runs -/
+
+/-- what the two loads have in common when the load of the prefix succeeds -/
+structure PrefixSound (f : Bool) (rp rf : LoadRes) : Prop where
+  ok : rf.ok = true
+  hdr : rp.obj.hdr = rf.obj.hdr
+  cls : rp.obj.cls = rf.obj.cls
+  enc : rp.obj.enc = rf.obj.enc
+  secs : ListRel (SecRelI f) rp.obj.secs rf.obj.secs
+  segs : ListRel SegRel rp.obj.segs rf.obj.segs
+  /-- with at least one segment the prefix run's stream never failed: no zeroed section -/
+  nofail : rp.obj.segs ≠ [] → f = false
+
+theorem loadSegmentsLoop_zero_segs (c enc tr isLazy phoff entsize secs i ls) :
+    (loadSegmentsLoop c enc tr isLazy phoff entsize secs 0 i ls []).2.1 = [] := rfl
+
+theorem loadSegsPhase_sim (o : Obj) (c : Cls) (enc : Enc) (hdr : Bytes) (isLazy : Bool) (htr : o.trans = [])
+    (img : Bytes) (k : Nat) (kind : StreamKind) (hlen : img.length < 9223372036854775808)
+    (lsp lsf : LoadSt) (secsp secsf : List SecBuf) (hs : Sim2 img k kind lsp lsf)
+    (hrel : ListRel (SecRelI lsp.st.fail) secsp secsf) (rp rf : LoadRes)
+    (hp : loadSegsPhase o c enc hdr isLazy lsp secsp = .ok rp)
+    (hf : loadSegsPhase o c enc hdr isLazy lsf secsf = .ok rf) (hok : rp.ok = true) :
+    PrefixSound lsp.st.fail rp rf := by
+  unfold loadSegsPhase at hp hf
+  by_cases hbad : load_segments_entsize_bad (Hdr.e_phnum c enc hdr) (Hdr.ident hdr EI_CLASS)
+      (Hdr.e_phentsize c enc hdr) = true
+  · rw [if_pos hbad] at hp
+    cases hp
+    exact Bool.noConfusion hok
+  · rw [if_neg hbad] at hp hf
+    rw [htr] at hp hf
+    cases hp
+    cases hf
+    have hsecs : lsp.st.fail = false → ListRel (SecRelI false) secsp secsf := fun hx => hx ▸ hrel
+    obtain ⟨r1, r2, r3⟩ := loadSegmentsLoop_sim c enc img k kind hlen isLazy (Hdr.e_phoff c enc hdr).toInt
+      (Hdr.e_phentsize c enc hdr).toNat secsp secsf (Hdr.e_phnum c enc hdr).toNat 0 lsp lsf [] [] hs hsecs
+      .nil hok
+    refine ⟨r1, rfl, rfl, rfl, hrel, r2, ?_⟩
+    intro hne
+    apply r3
+    rcases Nat.eq_zero_or_pos (Hdr.e_phnum c enc hdr).toNat with h0 | h0
+    · exfalso; apply hne
+      show (loadSegmentsLoop c enc [] isLazy (Hdr.e_phoff c enc hdr).toInt (Hdr.e_phentsize c enc hdr).toNat
+        secsp (Hdr.e_phnum c enc hdr).toNat 0 lsp []).2.1 = []
+      rw [h0]; rfl
+    · exact h0
+
+theorem loadAfterHdr_sim (o : Obj) (c : Cls) (enc : Enc) (hdr : Bytes) (isLazy : Bool) (htr : o.trans = [])
+    (img : Bytes) (k : Nat) (hlen : img.length < 9223372036854775808)
+    (sp sf : IStream) (hs : Sim img k sp sf) (rp rf : LoadRes)
+    (hp : loadAfterHdr o c enc hdr isLazy sp = .ok rp)
+    (hf : loadAfterHdr o c enc hdr isLazy sf = .ok rf) (hok : rp.ok = true) :
+    ∃ f, PrefixSound f rp rf := by
+  unfold loadAfterHdr at hp hf
+  rw [htr] at hp hf
+  have h0 : Sim2 img k sf.kind { st := sp } { st := sf } :=
+    ⟨⟨hs.dp, hs.kind, fun a ha => by cases ha⟩, ⟨hs.df, rfl, fun a ha => by cases ha⟩, hs.fail⟩
+  by_cases hbad : load_sections_entsize_bad (Hdr.e_shnum c enc hdr) (Hdr.ident hdr EI_CLASS)
+      (Hdr.e_shentsize c enc hdr) = true
+  · rw [if_pos hbad] at hp hf
+    have e1 : loadSecs0 c enc [] hdr isLazy sp = ({ st := sp }, []) := by unfold loadSecs0; rw [if_pos hbad]
+    have e2 : loadSecs0 c enc [] hdr isLazy sf = ({ st := sf }, []) := by unfold loadSecs0; rw [if_pos hbad]
+    rw [e1] at hp; rw [e2] at hf
+    exact ⟨_, loadSegsPhase_sim o c enc hdr isLazy htr img k sf.kind hlen _ _ [] [] h0 .nil rp rf hp hf hok⟩
+  · rw [if_neg hbad] at hp hf
+    have e1 : loadSecs0 c enc [] hdr isLazy sp = loadSectionsLoop c enc [] isLazy (Hdr.e_shoff c enc hdr).toInt
+        (Hdr.e_shentsize c enc hdr).toNat (Hdr.e_shnum c enc hdr).toNat 0 { st := sp } [] := by
+      unfold loadSecs0; rw [if_neg hbad]
+    have e2 : loadSecs0 c enc [] hdr isLazy sf = loadSectionsLoop c enc [] isLazy (Hdr.e_shoff c enc hdr).toInt
+        (Hdr.e_shentsize c enc hdr).toNat (Hdr.e_shnum c enc hdr).toNat 0 { st := sf } [] := by
+      unfold loadSecs0; rw [if_neg hbad]
+    obtain ⟨p1, p2⟩ := loadSecs0_spec c enc [] hdr isLazy sp
+    obtain ⟨q1, q2⟩ := loadSecs0_spec c enc [] hdr isLazy sf
+    rw [loadNamesK_eq c enc [] hdr _ _ _ sp.data sp.kind p1 p2] at hp
+    rw [loadNamesK_eq c enc [] hdr _ _ _ sf.data sf.kind q1 q2] at hf
+    obtain ⟨l1, l2⟩ := loadSectionsLoop_sim c enc img k sf.kind hlen isLazy (Hdr.e_shoff c enc hdr).toInt
+      (Hdr.e_shentsize c enc hdr).toNat (Hdr.e_shnum c enc hdr).toNat 0 _ _ [] [] h0 .nil
+    rw [← e1, ← e2] at l1 l2
+    rw [hs.dp] at p2; rw [hs.df] at q2
+    obtain ⟨n1, n2⟩ := namesPure_sim c enc hdr img k sf.kind hlen _ _ _ _ l1 l2 p2 q2
+    exact ⟨_, loadSegsPhase_sim o c enc hdr isLazy htr img k sf.kind hlen _ _ _ _ n1 n2 rp rf hp hf hok⟩
+
 end ElfioVerif.C17
